@@ -87,11 +87,12 @@ fn placements() -> Vec<Placement> {
     g.spc = 1;
     out.push(build("subdir-straddle/fat32", g, true, &[30, 25, 40], 11));
     // (c) FAT16 roots of 16 / 32 / 512 entries
-    for re in [16u16, 32, 512] {
+    for re in [16u16, 32, 40, 512] {
         let mut g = scen::g_v16a();
         g.root_entries = re;
         // HOLDER occupies one root slot; pad so that the sequence ends exactly at / near the end of the root region
-        let pad = if re == 16 { 9 } else if re == 32 { 12 } else { 13 };
+        // (40 entries: the sequence lies in the trailing, partially used root block)
+        let pad = if re == 16 { 9 } else if re == 32 { 12 } else if re == 40 { 32 } else { 13 };
         out.push(build(&format!("root16-{}", re), g, false, &[], pad));
     }
     // (e) FAT32 with start clusters above 65535
@@ -548,6 +549,36 @@ impl Oracle for Matrix {
             h2.push(cell);
             let (mut w2, st) = sc.replay_observed(&h2);
             judge_c07(sc, &h2, &st, out);
+            // differential form of "a refused call changes nothing": H.refused.close-all must leave the same
+            // medium as H.close-all (a refused write must not leave the handle dirty, for instance)
+            if let (Res::Err(e), false) = (&st.res, w2.dead) {
+                if !matches!(e, E::DiskFull | E::NotEnoughSpace | E::DeviceError) {
+                    let close_all = |w: &mut World| {
+                        for f in 0..NF as u8 {
+                            if w.files[f as usize].is_some() && !w.dead {
+                                w.apply(Op::Close { f }, false);
+                            }
+                        }
+                    };
+                    let mut wa = sc.replay(&h2);
+                    close_all(&mut wa);
+                    let mut wb = sc.replay(hist);
+                    close_all(&mut wb);
+                    if !wa.dead && !wb.dead {
+                        let (ia, ib) = (wa.disk.image(), wb.disk.image());
+                        let d = ia.diff_blocks(&ib);
+                        if !d.is_empty() {
+                            out.push(viol(
+                                "C07",
+                                format!("refusal-changed-medium-after-close@{}/{:?}", cell.kind(), e),
+                                format!("{} -> Err({:?}); after closing every file the medium differs in blocks {:?} from the medium without the refused call", cell.show(), e, &d[..d.len().min(6)]),
+                                sc,
+                                &h2,
+                            ));
+                        }
+                    }
+                }
+            }
             // documented effect of a successful truncate: after close the medium shows size 0
             if let (Op::Open { f, mode, d, name }, true) = (cell, st.res.is_ok()) {
                 if (mode == M_TRUNC || mode == M_CREATE_TRUNC) && !w2.dead && !w2.m.diverged && w2.m.files[f as usize].is_some() {
